@@ -248,6 +248,147 @@ def permute_order(rnd, order, groups):
     return new
 
 
+def _device(rnd):
+    """Hinting Device table over an arbitrary ppem range, any DeltaFormat, with zero runs at
+    either end (so that the last, partially filled word of the packed deltas is often all
+    zero).  -> extra-field dict for the reference model."""
+    fmt = rnd.choice([1, 2, 3])
+    lo, hi = {1: (-2, 1), 2: (-8, 7), 3: (-128, 127)}[fmt]
+    cap = {1: 8, 2: 4, 3: 2}[fmt]
+    start = rnd.randrange(7, 16)
+    lead = rnd.choice([0, 0, 1, 2, 3])
+    mid = rnd.randrange(1, 2 * cap + 2)
+    trail = rnd.choice([0, 0, 1, 2, cap - 1, cap, cap + 1])
+    vals = [0] * lead + [rnd.choice([v for v in range(lo, hi + 1) if v] + [0]) for _ in range(mid)] + [0] * trail
+    if not any(vals):
+        vals[lead] = lo
+    end = start + len(vals) - 1
+    return {"dev": {start + i: v for i, v in enumerate(vals)}, "devspec": (start, end, fmt)}
+
+
+def _devvalue(rnd, plain_zero=False):
+    v = [0, 0, 0, 0]
+    if not plain_zero:
+        v[2] = _nz(rnd)
+        if rnd.random() < 0.3:
+            v[0] = _nz(rnd, -60, 60)
+    ex = {}
+    for f in rnd.sample(["xa", "xa", "xp", "yp"], rnd.choice([1, 1, 2])):
+        ex[f] = _device(rnd)
+    return (v[0], v[1], v[2], v[3], ex)
+
+
+def _devanchor(rnd):
+    a = (rnd.randrange(0, 600), rnd.randrange(-200, 900))
+    if rnd.random() < 0.6:
+        ex = {}
+        for f in rnd.sample(["x", "y"], rnd.choice([1, 2])):
+            ex[f] = _device(rnd)
+        return a + (ex,)
+    return a
+
+
+def devices(rnd, size):
+    """Hinting Device tables everywhere they can occur: single and pair values (glyph pairs
+    and class pairs, among them pairs whose plain values are all zero), mark and base anchors,
+    cursive anchors, GDEF ligature carets.  Shaped at every ppem of the device ranges."""
+    n = 90
+    order = names(n)
+    S, A, R = order[1:11], order[11:21], order[21:31]
+    L1, R1 = order[31:43], order[43:55]
+    Mk, Bs, Cu = order[55:63], order[63:71], order[71:79]
+    spos = {g: _devvalue(rnd) for g in S}
+    pairs = []
+    for a in A:
+        for b in sorted(rnd.sample(R, rnd.choice([1, 2])), key=order.index):
+            v2 = _devvalue(rnd) if rnd.random() < 0.25 else None
+            pairs.append((a, b, _devvalue(rnd, plain_zero=rnd.random() < 0.3), v2))
+    lefts, rights = _partition(rnd, L1, 4, 3), _partition(rnd, R1, 4, 3)
+    rules = []
+    for l in lefts:
+        rr = list(rights)
+        rnd.shuffle(rr)
+        rules.append((l, rr[0], (0, 0, _nz(rnd), 0), None))                 # ordinary pair
+        rules.append((l, rr[1], _devvalue(rnd, plain_zero=True), None))       # zero plain values, Device only
+        if len(rr) > 2 and rnd.random() < 0.7:
+            rules.append((l, rr[2], _devvalue(rnd), None))
+    marks = {mk: ("C%d" % (i % 2), _devanchor(rnd)) for i, mk in enumerate(Mk)}
+    bases = {b: {"C%d" % c: _devanchor(rnd) for c in range(2)} for b in Bs}
+    curs = {g: (_devanchor(rnd), _devanchor(rnd)) for g in Cu}
+    gdef = {g: 1 for g in order[1:]}
+    gdef.update({g: 3 for g in Mk})
+    m = _model(n, gpos=[{"kind": "spos", "flag": {}, "values": spos},
+                        {"kind": "ppos", "flag": {}, "pairs": pairs, "classes": [rules]},
+                        {"kind": "mbase", "flag": {}, "marks": marks, "bases": bases},
+                        {"kind": "curs", "flag": {}, "anchors": curs}], gdef=gdef)
+    m["carets"] = {g: [(rnd.randrange(100, 500), _device(rnd)) for _ in range(rnd.choice([1, 2]))] for g in order[80:86]}
+    ppems = set()
+
+    def scan(x):
+        if isinstance(x, dict):
+            if "devspec" in x:
+                ppems.update(range(x["devspec"][0] - 1, x["devspec"][1] + 2))
+            for v in x.values():
+                scan(v)
+        elif isinstance(x, (list, tuple)):
+            for v in x:
+                scan(v)
+
+    scan(m["GPOS"])
+    m["ppems"] = [None] + sorted(ppems)
+    texts = [[g] for g in S] + [[a, b] for a, b, v1, v2 in pairs] + [[rnd.choice(l), rnd.choice(r)] for l, r, v1, v2 in rules]
+    texts += [[b, mk] for b in Bs for mk in rnd.sample(Mk, 2)] + [[rnd.choice(Cu) for _i in range(rnd.randrange(2, 4))] for _ in range(12)]
+    texts += [[rnd.choice(order[1:80]) for _i in range(rnd.randrange(2, 5))] for _ in range(30)]
+    return m, texts
+
+
+def varkern(rnd, size):
+    """Class and glyph kerning with variable scalars on a one-axis variable font, built from
+    feature-file text: pairs that are zero at the default location and kerned elsewhere sit in
+    the same Class1 row as ordinary pairs; the masters of the scalars are listed in varying
+    order.  Shaped at several axis locations (and through the compaction levels)."""
+    n = 60
+    order = names(n)
+    axis = ("wght", 200, 400, 1000)
+    lefts, rights = _partition(rnd, order[1:20], 5, 3), _partition(rnd, order[20:40], 5, 3)
+
+    def scalar(zero_default):
+        pts = [(200, 40 * rnd.randrange(-3, 4)), (400, 0 if zero_default else 40 * rnd.choice([-3, -2, -1, 1, 2, 3])), (1000, 40 * rnd.randrange(-4, 5))]
+        if zero_default and not (pts[0][1] or pts[2][1]):
+            pts[2] = (1000, -80)
+        show = list(pts)
+        rnd.shuffle(show)
+        return "(%s)" % " ".join("wght=%d:%d" % p for p in show), (0, 0, pts[1][1], 0, {"xa": {"var": pts}})
+
+    cls = lambda gl: "[" + " ".join(gl) + "]"
+    lines, pairs, rules = [], [], []
+    for a in order[40:48]:
+        b = rnd.choice(order[48:56])
+        t, v = scalar(rnd.random() < 0.4)
+        lines.append("    pos %s %s %s;" % (a, b, t))
+        pairs.append((a, b, v, None))
+    for l in lefts:
+        rr = list(rights)
+        rnd.shuffle(rr)
+        k = _nz(rnd)
+        lines.append("    pos %s %s %d;" % (cls(l), cls(rr[0]), k))
+        rules.append((l, rr[0], (0, 0, k, 0), None))
+        t, v = scalar(True)
+        lines.append("    pos %s %s %s;" % (cls(l), cls(rr[1]), t))
+        rules.append((l, rr[1], v, None))
+        if rnd.random() < 0.7:
+            t, v = scalar(False)
+            lines.append("    pos %s %s %s;" % (cls(l), cls(rr[2]), t))
+            rules.append((l, rr[2], v, None))
+    m = _model(n, gpos=[{"kind": "ppos", "flag": {}, "pairs": pairs, "classes": [rules]}])
+    m["axis"] = axis
+    m["fea"] = "feature %s {\n%s\n} %s;\n" % (FEATURE, "\n".join(lines), FEATURE)
+    m["locs"] = [None, 200, 300, 400, 550, 700, 850, 1000]
+    texts = [[a, b] for a, b, v1, v2 in pairs] + [[rnd.choice(l), rnd.choice(r)] for l, r, v1, v2 in rules for _ in range(2)]
+    texts += [[rnd.choice(order[1:56]) for _i in range(rnd.randrange(2, 5))] for _ in range(40)]
+    return m, texts
+
+
 def ligatures(rnd, size):
     """Ligature dictionary: LigatureSubst->LigatureSet offsets overflow (split by first glyph)."""
     nfirst, per, n = {0: (30, 8, 300), 1: (330, 42, 900), 2: (500, 50, 1200)}[size]
@@ -444,7 +585,7 @@ def huge_marklig(rnd, size):
 SPECS = {
     "kern_pairs": kern_pairs, "class_kern": class_kern, "zero_row_shadow": zero_row_shadow, "ligatures": ligatures,
     "multiple": multiple, "alternate": alternate, "markbase": markbase, "singlepos": singlepos,
-    "many_lookups": many_lookups, "mixed": mixed, "class0_column": class0_column, "permuted": permuted,
+    "many_lookups": many_lookups, "mixed": mixed, "class0_column": class0_column, "permuted": permuted, "devices": devices, "varkern": varkern,
 }
 UNPACKABLE = {"huge_ligature_set": huge_ligature_set, "huge_chain_format3": huge_chain_format3, "huge_marklig": huge_marklig}
 LEVEL_OF = {
@@ -488,6 +629,18 @@ def base_font(order, advances, gdef=None):
     return b.getvalue()
 
 
+def _dev(ex):
+    from fontTools.ttLib.tables import otTables as ot
+
+    if not ex or "devspec" not in ex:
+        return None
+    start, end, fmt = ex["devspec"]
+    d = ot.Device()
+    d.StartSize, d.EndSize, d.DeltaFormat = start, end, fmt
+    d.DeltaValue = [ex["dev"].get(p, 0) for p in range(start, end + 1)]
+    return d
+
+
 def _value(v):
     from fontTools.otlLib import builder as B
 
@@ -497,9 +650,23 @@ def _value(v):
     for k, x in zip(("XPlacement", "YPlacement", "XAdvance", "YAdvance"), v):
         if x:
             d[k] = x
+    if len(v) > 4 and v[4]:
+        for f, name in (("xp", "XPlaDevice"), ("yp", "YPlaDevice"), ("xa", "XAdvDevice"), ("ya", "YAdvDevice")):
+            dev = _dev(v[4].get(f))
+            if dev is not None:
+                d[name] = dev
     if not d:
         d = {"XAdvance": 0}
     return B.buildValue(d)
+
+
+def _anc(a):
+    from fontTools.otlLib import builder as B
+
+    if a is None:
+        return None
+    ex = a[2] if len(a) > 2 and a[2] else {}
+    return B.buildAnchor(a[0], a[1], deviceX=_dev(ex.get("x")), deviceY=_dev(ex.get("y")))
 
 
 def _lookup_tables(lk, gm):
@@ -539,19 +706,19 @@ def _lookup_tables(lk, gm):
             out.append(t)
         return out
     if k == "curs":
-        return [B.buildCursivePosSubtable({g: (None if e is None else B.buildAnchor(*e), None if x is None else B.buildAnchor(*x))
+        return [B.buildCursivePosSubtable({g: (_anc(e), _anc(x))
                                            for g, (e, x) in lk["anchors"].items()}, gm)]
     if k == "mbase":
         cls = sorted({c for c, a in lk["marks"].values()})
         cid = {c: i for i, c in enumerate(cls)}
-        marks = {mk: (cid[c], B.buildAnchor(*a)) for mk, (c, a) in lk["marks"].items()}
-        bases = {b: {cid[c]: B.buildAnchor(*a) for c, a in d.items() if c in cid} for b, d in lk["bases"].items()}
+        marks = {mk: (cid[c], _anc(a)) for mk, (c, a) in lk["marks"].items()}
+        bases = {b: {cid[c]: _anc(a) for c, a in d.items() if c in cid} for b, d in lk["bases"].items()}
         return [B.buildMarkBasePosSubtable(marks, bases, gm)]
     if k == "mlig":
         cls = sorted({c for c, a in lk["marks"].values()})
         cid = {c: i for i, c in enumerate(cls)}
-        marks = {mk: (cid[c], B.buildAnchor(*a)) for mk, (c, a) in lk["marks"].items()}
-        ligs = {l: [{cid[c]: B.buildAnchor(*a) for c, a in d.items() if c in cid} for d in comps] for l, comps in lk["ligs"].items()}
+        marks = {mk: (cid[c], _anc(a)) for mk, (c, a) in lk["marks"].items()}
+        ligs = {l: [{cid[c]: _anc(a) for c, a in d.items() if c in cid} for d in comps] for l, comps in lk["ligs"].items()}
         return [B.buildMarkLigPosSubtable(marks, ligs, gm)]
     if k == "chain":
         out = []
@@ -648,6 +815,25 @@ def add_tables(font, model):
         g.GlyphClassDef = ot.GlyphClassDef()
         g.GlyphClassDef.classDefs = dict(model["gdef"])
         g.AttachList = g.LigCaretList = g.MarkAttachClassDef = None
+        if model.get("carets"):
+            # ligature carets by coordinate with a Device table each (CaretValue format 3)
+            lcl = ot.LigCaretList()
+            glyphs = sorted(model["carets"], key=gm.__getitem__)
+            lcl.Coverage = B.buildCoverage(glyphs, gm)
+            lcl.LigGlyph = []
+            for gl in glyphs:
+                lg = ot.LigGlyph()
+                lg.CaretValue = []
+                for coord, ex in model["carets"][gl]:
+                    cv = ot.CaretValue()
+                    cv.Format = 3
+                    cv.Coordinate = coord
+                    cv.DeviceTable = _dev(ex)
+                    lg.CaretValue.append(cv)
+                lg.CaretCount = len(lg.CaretValue)
+                lcl.LigGlyph.append(lg)
+            lcl.LigGlyphCount = len(lcl.LigGlyph)
+            g.LigCaretList = lcl
         tb = newTable("GDEF")
         tb.table = g
         font["GDEF"] = tb
